@@ -5,7 +5,12 @@ SPEC = {
     "rule": "*-cachefile, per session: 0..140 templates announced by several exporters, the real Dump, reload of the file, EVERY proper "
             "prefix of the file (all offsets up to 4000 octets, else first/last 1000 + 2000 sampled), 8 byte-/structure-level corruptions "
             "(dropped/null/duplicated shards, null or missing maps, wrong ShardNo, wrong types, deleted chunks, bit flips, other JSON "
-            "documents), absent / empty / directory paths, each followed by probe decodes; non-trivial = a load or decode that "
+            "documents; entries moved / copied to other shards, renamed keys, key texts the decoders never write: empty, decimal, "
+            "upper-case hex, `<a&b>`, quotes and backslashes, control characters, U+2028/9, U+FFFD, invalid UTF-8, non-BMP), half of them "
+            "dumped again (the octets compared with the model: keys escaped as encoding/json does), absent / empty / directory paths, "
+            "each followed by probe decodes; then the file the code BEFORE the K1 repair wrote for the same templates (decimal hash keys): "
+            "it must load with all its entries, no data may find its template there, and after the exporters announced again data must "
+            "decode as before the restart (corpus/C11/*-cachefile--F26-old-format.txt runs first); non-trivial = a load or decode that "
             "returned templates/records; distinct = distinct case line. "
             "jsonvalid (the Lean recogniser Spec.jsonValid against the real json.Valid; the category is part of the output line, so the "
             "per-kind distribution in the evidence is the input distribution, valid/invalid per category): real dump files with real "
@@ -35,7 +40,9 @@ META = {
     "text": "Lean: load_save (for every cache with distinct keys — proved to be every cache reachable by decoding, both protocols — "
             "loading the document Dump writes maps every key to the same template: bucket/sort permutation + map law), load_usable "
             "(whatever the document, GetCache yields the document's cache with 32 non-null shards and maps, or a fresh cache), "
-            "load_subset (only templates of the file), loadDoc_nodup. Crash points, now PROVED: Spec.jsonValid is an executable port of "
+            "load_subset (only entries of the file, each in its shard under its key text), loadDoc_nodup, loadDoc_shard_lt; "
+            "load_old_format_lookup (a file with the decimal hash keys of the code before the K1 repair loads, and every lookup by an "
+            "address of >= 4 octets finds nothing: templates are learnt again). Crash points, now PROVED: Spec.jsonValid is an executable port of "
             "the state machine of Go's encoding/json scanner (json.Valid, incl. the 10000 nesting limit); json_render_valid (every "
             "well-formed RFC 8259 tree within the nesting limit renders to an accepted text), json_valid_prefix_rejected (an accepted "
             "text that begins with a bracket and does not end in whitespace has no accepted proper prefix), json_render_prefix_rejected "
